@@ -628,6 +628,8 @@ struct Group {
     net_file: &'static str,
     net_cli: &'static str,
     port: Src,
+    /// (value in the file, value on the command line)
+    port_vals: (u16, u16),
     user: Src,
     password: Src,
     cookie: Src,
@@ -679,16 +681,16 @@ fn build_case(g: &Group, others: &[(usize, Src)]) -> Case {
     }
     // port (u16)
     if matches!(g.port, Src::File | Src::Both) {
-        toml.push_str("btc_rpc_port = 6001\n");
+        toml.push_str(&format!("btc_rpc_port = {}\n", g.port_vals.0));
     }
     if matches!(g.port, Src::Cli | Src::Both) {
         argv.push(cli_flag("btc_rpc_port"));
-        argv.push("6002".into());
+        argv.push(g.port_vals.1.to_string());
     }
     let port_set: Option<u16> = match g.port {
         Src::Absent => None,
-        Src::File => Some(6001),
-        _ => Some(6002),
+        Src::File => Some(g.port_vals.0),
+        _ => Some(g.port_vals.1),
     };
     for (i, src) in others {
         let o = &OPTS[*i];
@@ -845,16 +847,20 @@ pub fn c20(tier: Tier) -> i32 {
         ("regtest", ""),
         ("Mainnet", "liquid"),
     ];
-    let default_group = Group { network: Src::File, net_file: "regtest", net_cli: "signet", port: Src::Absent, user: Src::File, password: Src::File, cookie: Src::Absent };
+    let default_group = Group { network: Src::File, net_file: "regtest", net_cli: "signet", port: Src::Absent, port_vals: (6001, 6002), user: Src::File, password: Src::File, cookie: Src::Absent };
     // 1. interacting group, exhaustive
     for (nf, nc) in nets.iter() {
         for network in SRCS {
             for port in SRCS {
-                for user in SRCS {
-                    for password in SRCS {
-                        for cookie in SRCS {
-                            let g = Group { network, net_file: nf, net_cli: nc, port, user, password, cookie };
-                            cases.push(build_case(&g, &[]));
+                // explicit ports include values that are another network's default
+                let port_values: Vec<(u16, u16)> = if port == Src::Absent { vec![(6001, 6002)] } else { vec![(6001, 6002), (8332, 18443), (38332, 18332)] };
+                for port_vals in port_values {
+                    for user in SRCS {
+                        for password in SRCS {
+                            for cookie in SRCS {
+                                let g = Group { network, net_file: nf, net_cli: nc, port, port_vals, user, password, cookie };
+                                cases.push(build_case(&g, &[]));
+                            }
                         }
                     }
                 }
